@@ -85,6 +85,7 @@ type wrapReq struct {
 	Classes  []string     `json:"classes"`
 	Mode     string       `json:"mode"`     // c03: range-check mechanism of the builder (native | commit | plain), default native
 	Paths    []string     `json:"paths"`    // noncanon: only these leaves (targets computed from the canonical-set trace)
+	DocPow   bool         `json:"doc_pow"`  // noncanon: the proof-of-work witness + p written into the proof DOCUMENT (where it fits 64 bits) and read by the repository's readers
 	PowBits  *int         `json:"pow_bits"` // noncanon: the grinding difficulty of the circuit description (both stored copies) set to this value
 }
 
@@ -235,6 +236,13 @@ func c03Run(req wrapReq, resp *drv.Response) error {
 		cfg := &engine.Config{Mode: modeOf(mode)}
 		err := hc.RunFixed(cfg, l, l, pub)
 		out := hc.Outcome(err)
+		if out != "accept" && mode == "plain" && want == "reject" {
+			// under the bit-decomposition mechanism the width checks are gnark's bit decompositions: also with the digits a prover would
+			// supply for a value that does not fit (everything in digit 0) and permissive limb hints
+			cfg = &engine.Config{Mode: engine.Plain, Permissive: true, PermissiveFlavor: 2}
+			err = hc.RunFixed(cfg, l, l, pub)
+			out = hc.Outcome(err)
+		}
 		if out != "accept" {
 			out = "reject"
 		}
@@ -564,6 +572,25 @@ func detachVD(vd variables.VerifierOnlyCircuitData) variables.VerifierOnlyCircui
 func noncanonRun(req wrapReq, resp *drv.Response) error {
 	inst := data.ByName(req.Instance)
 	l := data.Load(inst, req.K)
+	if req.DocPow {
+		w := engine.ToBig(l.PWPI.Proof.OpeningProof.PowWitness.Limb)
+		nv := new(big.Int).Add(w, bigP)
+		if nv.BitLen() > 64 {
+			resp.Count("noncanon-doc/"+req.Instance, true) // the second encoding of this witness is not a 64-bit word: no document can carry it
+			return nil
+		}
+		ld, err := data.LoadWithPowText(inst, req.K, nv.String(), drv.Tmp())
+		resp.Count("noncanon-doc/"+req.Instance, false)
+		if err != nil {
+			return nil // refused at reading: not accepted
+		}
+		err = hc.RunVerifier(&engine.Config{Mode: engine.Native, Permissive: true}, ld, ld)
+		if hc.Outcome(err) == "accept" {
+			resp.Violate("c17/noncanon/accept cls=PWPI.Proof.OpeningProof.PowWitness via=document",
+				fmt.Sprintf("%s k=%d: the proof document with pow_witness = value + p (%v) is accepted: the proof has a second encoding", req.Instance, req.K, nv), map[string]any{"instance": req.Instance, "k": req.K, "path": "PWPI.Proof.OpeningProof.PowWitness", "ks": "1"})
+		}
+		return nil
+	}
 	if req.PowBits != nil {
 		// a description with a lower grinding difficulty: the proof stays valid (its response has more leading zeros than needed), and
 		// nothing about the encoding of the proof may depend on that field
